@@ -97,39 +97,39 @@ Proof.
   cbn [rev forallb]. rewrite forallb_app, IH. cbn [forallb]. rewrite andb_true_r. apply andb_comm.
 Qed.
 
-(** is_ascii (code) against the documents' range test, when there is no control character *)
-Lemma ascii_iff_in_range cs : keys_wf u_orig cs ->
-  existsb (fun ch => code ch <? 32) (O cs) = false ->
-  is_ascii (O cs) = forallb in_range cs.
+(** the guard of the code (every BYTE in 0x20..=0x7F, layout.rs:608) is the documents'
+    range test (every CHARACTER a code point 0x20 to 0x7F): a multi-byte character
+    starts with a byte >= 0xC0 *)
+Lemma byte_range_iff_in_range cs : keys_wf u_orig cs ->
+  forallb in_0007_range (O cs) = forallb in_range cs.
 Proof.
-  induction 1 as [|u cs Hu _ IH]; intros NC; [reflexivity|].
-  unfold O in *. rewrite K_cons in *. rewrite existsb_app in NC. apply orb_false_iff in NC as [NC1 NC2].
-  rewrite is_ascii_app, IH by exact NC2. cbn [forallb]. f_equal.
+  induction 1 as [|u cs Hu _ IH]; [reflexivity|].
+  unfold O in *. rewrite K_cons. rewrite forallb_app, IH. cbn [forallb]. f_equal.
   destruct (wf_char_inv _ Hu) as (c & r & E & L & Hr & _).
   unfold in_range. rewrite E in *. destruct r as [|d r].
-  - cbn [existsb] in NC1. rewrite orb_false_r in NC1.
-    assert (code c < 128) by (apply utf8_len_1; rewrite L, blen_nil; lia).
-    cbn [is_ascii forallb]. unfold is_ascii_byte. lia.
+  - cbn [forallb]. unfold in_0007_range. now rewrite andb_true_r.
   - assert (192 <= code c).
     { apply utf8_len_multi with (k := blen (d :: r)); [exact L|rewrite blen_cons; lia]. }
-    cbn [is_ascii forallb]. unfold is_ascii_byte at 1. replace (code c <? 128) with false by lia. reflexivity.
+    cbn [forallb]. unfold in_0007_range at 1. replace (code c <=? 127) with false by lia.
+    now rewrite andb_false_r.
 Qed.
 
 Lemma rev_map_byte cs : rev (List.map byte_of cs) = List.map byte_of (rev cs).
 Proof. now rewrite map_rev. Qed.
 
+(** also for ids with control characters: refused by code and documents (a known finding
+    until fix 970818d) *)
 Lemma map_0007_correct c id dg : c_ext c = E0007 -> cfg_ok c = true ->
   ustr_wf id = true -> ustr_wf (c_delim c) = true ->
-  c11_casefold c id = false -> c11_0007_ctrl c id = false ->
+  c11_casefold c id = false ->
   refusal (Layout.map c id dg) = LayoutSpec.map c id dg.
 Proof.
-  intros He Hok Wi Wd K1 K2. unfold Layout.map, LayoutSpec.map. rewrite He.
+  intros He Hok Wi Wd K1. unfold Layout.map, LayoutSpec.map. rewrite He.
   unfold c11_casefold in K1. rewrite He in K1. apply negb_false_iff in K1.
-  unfold c11_0007_ctrl in K2. rewrite He in K2.
   destruct (cfg_ok_0007 c He Hok) as (Hd & Hts & Hnt).
-  unfold map_0007, spec_0007.
+  unfold map_0007, map_0007_mapped, spec_0007.
   change (us_bytes id) with (O (us_chars id)) in *.
-  rewrite ascii_iff_in_range by (try apply ustr_wf_keys; assumption).
+  rewrite byte_range_iff_in_range by (apply ustr_wf_keys; assumption).
   destruct (forallb in_range (us_chars id)) eqn:IR; cbn [negb]; [|reflexivity].
   assert (Sid : Forall single (us_chars id)).
   { apply Forall_forall. intros u Hu. apply in_range_single. rewrite forallb_forall in IR. now apply IR. }
